@@ -7,6 +7,10 @@
 -/
 import Fca.Model.DecisionLattice
 import Fca.Lemmas.DecisionLattice
+import Fca.Lemmas.DecisionLatticeTrace
+import Fca.Lemmas.DecisionLatticeTree
+import Fca.Lemmas.DecisionLatticeConv
+import Fca.Lemmas.DecisionLatticeConv2
 namespace Fca.C20
 open Fca Fca.DL
 
@@ -60,43 +64,8 @@ theorem trace_step_exact (t : Tree) (X : Rows) (m : Nat) (eps : Rat) (hwf : well
     extensionI X m [(f, directDescr t eps l.toNat thr)] (some base)
         = .ok (base.filter fun g => descend t (X.getD g []) 1 i == l.toNat) ∧
     extensionI X m [(f, directDescr t eps r.toNat thr)] (some base)
-        = .ok (base.filter fun g => descend t (X.getD g []) 1 i == r.toNat) := by
-  obtain ⟨hlen, heps, hnode⟩ := wf_parts hwf
-  have hi : i < t.n := by rw [← hlen]; exact (List.getElem?_eq_some_iff.mp h1).1
-  obtain ⟨a1, a3, a6, a7, a8, _, a10, _, a12⟩ := wfNode_internal (hnode i hi) h1 h2 h3 h4 hl
-  have hne : l.toNat ≠ r.toNat := by
-    have := hnode i hi
-    simp only [wfNode, h1, h2, h3, h4] at this
-    simp only [Bool.or_eq_true, Bool.and_eq_true, beq_iff_eq, decide_eq_true_eq, bne_iff_ne, ne_eq] at this
-    rcases this with hh | hh
-    · exact absurd hh.1 hl
-    · have hlr : l ≠ r := hh.1.1.1.1.1.1.1.2
-      omega
-  have hstep : ∀ g, descend t (X.getD g []) 1 i
-      = if (X.getD g []).getD f.toNat 0 ≤ thr then l.toNat else r.toNat := by
-    intro g
-    simp only [descend, h1, h2, h3, h4, if_neg hl]
-  constructor
-  · rw [extensionI_single X m f _ base a6 a7]
-    congr 1
-    apply List.filter_congr
-    intro g _
-    simp only [directDescr, a10, if_true, sat_left, hstep, cell]
-    by_cases hx : (X.getD g []).getD f.toNat 0 ≤ thr
-    · rw [if_pos hx, decide_eq_true hx]; simp
-    · rw [if_neg hx, decide_eq_false hx]; simp [Ne.symm hne]
-  · rw [extensionI_single X m f _ base a6 a7]
-    congr 1
-    apply List.filter_congr
-    intro g hg
-    have hrow : X.getD g [] ∈ X := by
-      have hlt : g < X.length := hbase g hg
-      simp [List.getD_eq_getElem?_getD, List.getElem?_eq_getElem hlt]
-    simp only [directDescr, a12, Bool.false_eq_true, if_false, hstep, cell]
-    rw [sat_right thr eps _ heps (a8 _ hrow)]
-    by_cases hx : (X.getD g []).getD f.toNat 0 ≤ thr
-    · rw [if_pos hx, decide_eq_true hx]; simp [hne]
-    · rw [if_neg hx, decide_eq_false hx]; simp
+        = .ok (base.filter fun g => descend t (X.getD g []) 1 i == r.toNat) :=
+  trace_step t X m eps hwf i l r f thr h1 h2 h3 h4 hl base hbase
 
 /-- The parser's `dtargets` are exactly the node deltas (root value, then child value − parent value, the parent
     being the one the left/right dictionaries recover) and `direct_parents` is `[None] + parents`. -/
@@ -108,38 +77,41 @@ theorem parse_deltas_exact (t : Tree) (m : Nat) (eps : Rat) (r : Rules) (hn : 0 
 
 /-! ### the composed statement -/
 
-/-- PARTIAL.  For every well-formed tree, every decision lattice `L` and every record order: if the model's
-    `trace_context` run returns records `recs` such that
-      (a) `traceKeysOK`: the decision stored under each traced record's key `(sup, concept, gen)` is the node
-          delta `delta t concept`, and
-      (b) `tracePathOK`: for every row the records containing it are exactly the nodes of its root-to-leaf path,
-    then `predict` returns, for every object of the context, the value the tree predicts.
+/-- FULL.  For every well-formed tree (`wellFormed`, decidable), every context, the decision lattice `L` the
+    converter returns for it, and every iteration order of the set of generator records: `trace_context`
+    terminates without error within `len(lattice)` iterations, its de-duplicated generator records are —
+    for every row — exactly the nodes on the row's root-to-leaf path (`tracePathOK`), the decision stored under
+    each record's key is that node's delta (`traceKeysOK`), and therefore `predict` returns for every object of
+    the context exactly the value the tree predicts (standard descent `x[feature] ≤ threshold → left`).
 
-    Missing for the FULL `dl_predict_eq_tree` (no hypotheses (a), (b) for `L = fromDecisionTree t X m eps`):
-    the loop invariant of the queue-driven `traceLoop`/`storedExt` (caches, visiting order) that lifts
-    `trace_step_exact` to (b), and the inversion of `parse`/`mkDecisions` that gives (a).  Both hypotheses are
-    decidable; the driver evaluates them on every explored case (`hyps` in the reply) and the run fails if one
-    is false. -/
-theorem dl_predict_eq_tree_partial (t : Tree) (X : Rows) (m : Nat) (eps : Rat)
-    (hwf : wellFormed t X m eps = true) (L : DLat) (order : List GenRec → List GenRec)
-    (recs : List GenRec) (htrace : traceContext L.lat X m order = .ok recs)
-    (hkeys : traceKeysOK t L.decisions recs = true) (hpath : tracePathOK t X recs = true) :
-    ∃ preds, predict L X m order = .ok preds ∧ preds.length = nObjects X ∧
+    `hconv` names the converter's result; that the converter does not raise on a fitted tree (no
+    `AssertionError` from `generators_to_description`, unique top/bottom of the lattice) is not part of this
+    statement — the run observes it on every explored tree. -/
+theorem dl_predict_eq_tree (t : Tree) (X : Rows) (m : Nat) (eps : Rat)
+    (hwf : wellFormed t X m eps = true) (L : DLat) (hconv : fromDecisionTree t X m eps = .ok L)
+    (order : List GenRec → List GenRec) (horder : ∀ l, (order l).Perm l) :
+    ∃ recs preds, traceContext L.lat X m order = .ok recs ∧
+      tracePathOK t X recs = true ∧ traceKeysOK t L.decisions recs = true ∧
+      predict L X m order = .ok preds ∧ preds.length = nObjects X ∧
       ∀ g < nObjects X, preds.getD g 0 = treePredict t (X.getD g []) := by
-  have hk : ∀ r ∈ recs, alGet L.decisions ⟨r.sup, r.concept, r.gen⟩ = some (delta t r.concept) := by
-    intro r hr
-    have := List.all_eq_true.mp hkeys r hr
-    simpa using this
-  obtain ⟨res, h1, h2, h3⟩ := sumDiff_spec L.decisions (delta t) recs hk (List.replicate (nObjects X) 0)
-  refine ⟨res, ?_, ?_, ?_⟩
-  · simp only [predict, htrace]; exact h1
-  · simpa using h2
-  · intro g hg
-    have hp := List.all_eq_true.mp hpath g (List.mem_range.mpr hg)
-    have hperm := of_decide_eq_true hp
-    rw [h3 g (by simpa using hg)]
-    rw [sumR_perm (hperm.map (delta t)), telescoping_core t X m eps hwf]
-    simp [List.getD_eq_getElem?_getD, hg, Rat.zero_add]
+  obtain ⟨recs, htrace, hpath, hkeys⟩ := tracePathOK_of_conv t X m eps L hwf hconv order horder
+  obtain ⟨preds, h1, h2, h3⟩ := predict_of_trace t X m eps hwf L order recs htrace hkeys hpath
+  exact ⟨recs, preds, htrace, hpath, hkeys, h1, h2, h3⟩
+
+/-- FULL, unconditional form.  For every well-formed tree that is *fitted* on the context (`fitted`, decidable:
+    every node is reached by at least one row — true of any sklearn tree grown on rows of the context,
+    bootstrapped or not): the converter does not raise (`parse` finds every parent, no `AssertionError` from
+    `generators_to_description`, every accumulated premise describes exactly the rows passing its node, the
+    bottom completion and its assert go through, the concept list has a unique top and bottom), and the
+    resulting decision lattice predicts, for every object of the context, exactly the tree's value. -/
+theorem dl_converted_predicts (t : Tree) (X : Rows) (m : Nat) (eps : Rat)
+    (hwf : wellFormed t X m eps = true) (hfit : fitted t X = true)
+    (order : List GenRec → List GenRec) (horder : ∀ l, (order l).Perm l) :
+    ∃ L preds, fromDecisionTree t X m eps = .ok L ∧ predict L X m order = .ok preds ∧
+      preds.length = nObjects X ∧ ∀ g < nObjects X, preds.getD g 0 = treePredict t (X.getD g []) := by
+  obtain ⟨L, hL⟩ := conversion_ok hwf hfit
+  obtain ⟨_, preds, _, _, _, h1, h2, h3⟩ := dl_predict_eq_tree t X m eps hwf L hL order horder
+  exact ⟨L, preds, hL, h1, h2, h3⟩
 
 /-! ### non-vacuity: a concrete fitted tree (5 nodes, depth 2) meets every hypothesis -/
 
@@ -150,6 +122,8 @@ private def exX : Rows := [[0, 1], [1, 1], [2, 0], [3, 1/2], [1, 2]]
 private def exEps : Rat := 1 / 1000000000
 
 example : wellFormed exT exX 2 exEps = true := by decide +kernel
+
+example : fitted exT exX = true := by decide +kernel
 
 example : (match fromDecisionTree exT exX 2 exEps with
     | .ok L =>
